@@ -472,12 +472,14 @@ def write_summary_file_vue(stats, filepath, year=2025, currency_format="${amount
         )
     else:
         # Embed everything inline (default)
+        # The data goes in last: it is user-controlled text, and a description that
+        # happens to contain one of the placeholder comments must not be expanded.
         final_html = html_template.replace(
             '/* CSS_PLACEHOLDER */', css_content
         ).replace(
-            '/* DATA_PLACEHOLDER */', data_script
-        ).replace(
             '/* JS_PLACEHOLDER */', js_content
+        ).replace(
+            '/* DATA_PLACEHOLDER */', data_script
         )
 
     # Write output file
